@@ -81,6 +81,9 @@ def batch(pdus, default, tags):
         stop_called = [e for e in s.events if e[1] == 'stop-called']
         early = bool(started_ended_early and (not stop_called or started_ended_early[0][0] < stop_called[0][0]))
         exc = started_ended_early[0][2] if started_ended_early else None
+        if early and len(obs) < len(pdus) and not (obs and obs[-1]['ended'] is not None):
+            # start() ended while the environment was waiting: the PDU fed last is the one that did it
+            obs.append(dict(answers=[], dropped=True, probe_ok=False, hooks=0, ended='start() ended: %s' % exc))
     finally:
         s.close()
     return obs, early, exc
